@@ -1,3 +1,71 @@
-(* C04/Props.v -- property theorems only. *)
-From Coq Require Import ZArith List Bool.
-From Verif Require Import Base.Num Base.Vec C04.Model C04.Proofs.
+(* C04/Props.v -- property theorems only; each is closed by [exact] of a lemma of
+   C04/Proofs.v / C04/Instances.v and followed by Print Assumptions.
+
+   Vocabulary (C04/Model.v, tied to /repo by the structural + value correspondence):
+     sexpr    an expression as the user writes it: leaves, + - neg * (= @) / ** with operator,
+              vector and scalar operands on either side, of ANY depth
+     build    what Operator.__add__ ... Functional.__mul__ ... construct from it (an object
+              tree [oexpr] of the expression classes, incl. scalar merging and the linear
+              shortcut A*a -> a*A, the zero-scalar shortcuts of Functional), or an error
+     eval     the objects' out-of-place _call;  eval_ip  their in-place _call
+     denote   the documented table applied recursively:
+              (A+B)(x)=A(x)+B(x), (A*B)(x)=A(B(x)), (a*A)(x)=a*A(x), (A*a)(x)=A(a*x),
+              (v*A)(x)=v*A(x), (A*v)(x)=A(v*x), (A+v)(x)=A(x)+v, A**n iterated, (A/a)(x)=A(x/a)
+     sdom/sran/slin   domain, range, linearity implied by the expression
+     leaf_ok  what is assumed of a leaf: maps F^n into its declared range; a Functional has
+              the field as range; a leaf FLAGGED linear is homogeneous (the premise that the
+              A*a -> a*A rewrite needs; nothing is assumed of nonlinear leaves)            *)
+From Coq Require Import ZArith QArith Reals List Bool Ring.
+From Verif Require Import Base.Num Base.Vec C04.Model C04.Cplx C04.Proofs C04.Instances.
+Import ListNotations.
+
+(* T1 (core).  Over ANY commutative ring carried by the Num class (covers R, C, Qc): for every
+   source expression s of any depth over arbitrary linear/nonlinear/functional leaves, if the
+   overloads build an object o (i.e. s is accepted as well-typed), then at every point x of
+   the domain both the out-of-place and the in-place evaluation of o equal the table value. *)
+Theorem build_sound : forall (T : Type) (N : Num T),
+  ring_theory nzero none_ nadd nmul nsub nopp (@eq T) ->
+  (forall u c : T, ndiv u c = nmul (ndiv none_ c) u) ->
+  (forall a b : T, neqb a b = true -> a = b) ->
+  forall (s : sexpr T) (o : oexpr T), sleaves_ok s -> build s = Ok o ->
+  forall x : list T, length x = dim (sdom s) ->
+    eval o x = denote s x /\ eval_ip o x = denote s x.
+Proof. exact @build_sound. Qed.
+Print Assumptions build_sound.
+
+(* the same, closed, at the two fields ODL has *)
+Theorem build_sound_real : forall (s : sexpr R) (o : oexpr R), sleaves_ok s -> build s = Ok o ->
+  forall x : list R, length x = dim (sdom s) ->
+    eval o x = denote s x /\ eval_ip o x = denote s x.
+Proof. exact (@Proofs.build_sound R _ R_ring R_div R_eqb). Qed.
+Print Assumptions build_sound_real.
+
+Theorem build_sound_complex : forall (s : sexpr RC) (o : oexpr RC), sleaves_ok s -> build s = Ok o ->
+  forall x : list RC, length x = dim (sdom s) ->
+    eval o x = denote s x /\ eval_ip o x = denote s x.
+Proof. exact (@Proofs.build_sound RC _ RC_ring RC_div RC_eqb). Qed.
+Print Assumptions build_sound_complex.
+
+(* T1.  Domain and range of the built object are those implied by the expression, and the
+   value has the length of the range. *)
+Theorem build_types : forall (T : Type) (N : Num T),
+  ring_theory nzero none_ nadd nmul nsub nopp (@eq T) ->
+  (forall u c : T, ndiv u c = nmul (ndiv none_ c) u) ->
+  (forall a b : T, neqb a b = true -> a = b) ->
+  forall (s : sexpr T) (o : oexpr T), sleaves_ok s -> build s = Ok o ->
+  odom o = sdom s /\ oran o = sran s /\
+  (forall x : list T, length x = dim (sdom s) -> length (eval o x) = dim (sran s)).
+Proof. exact @Proofs.build_types. Qed.
+Print Assumptions build_types.
+
+(* The leaf premise is satisfiable: every member of the concrete pool used by the
+   correspondence (matrix/affine/square/cube/abs operators, inner-product operator, linear,
+   quadratic and L1 functionals, field-valued nonlinear operator) meets it, so for expressions
+   over the pool the theorem needs no premise about leaves at all. *)
+Theorem build_sound_pool_real : forall (s : sexpr R) (o : oexpr R), sleaves_pool s -> build s = Ok o ->
+  forall x : list R, length x = dim (sdom s) ->
+    eval o x = denote s x /\ eval_ip o x = denote s x.
+Proof.
+  exact (fun s o P => @Proofs.build_sound R _ R_ring R_div R_eqb s o (sleaves_pool_ok R_ring s P)).
+Qed.
+Print Assumptions build_sound_pool_real.
